@@ -638,6 +638,7 @@ func (p *Pipeline) finalize(event *Event, notifyInput bool, backEvent bool) {
 
 	// todo: avoid event.stream.commit(event)
 	event.stream.commit(event)
+	verifAfterStreamCommit(p, event)
 
 	if !backEvent {
 		return
